@@ -677,13 +677,21 @@ class SecopClient(ProxyClient):
                     event.set()
             except queue.Empty:
                 pass
+            txq = self.txq
+            marker = False
             try:  # requests queued while disconnecting
                 while True:
-                    entry = self.txq.get(block=False)
+                    entry = txq.get(block=False)
                     if entry:
                         entry[1].set()
+                    else:
+                        marker = True
             except queue.Empty:
                 pass
+            if marker and self._txthread:
+                # the shutdown marker is not ours to take: a connect() from an other thread
+                # might have started a new tx thread meanwhile, which is waiting for it
+                txq.put(None)
 
     def _init_descriptive_data(self, data):
         """rebuild descriptive data"""
